@@ -299,6 +299,46 @@ theorem events_panic_contained (fx : Fixes) (hf : fx.poll = true) (s : State) (h
 example : (run current settledS [.pollPanic, .pollPanic, .tick]).map (fun s => (s.crashed, s.core.nRun, s.core.spc, s.core.panicked)) =
     some (false, 1, .parked, false) := by decide
 
+/-- REPEATED panics: any number of contained panics — in Process goroutines, in worker goroutines, in the coordinator's
+    poll — interleaved in any order with ticks, jobs and returns leave the recoverer / service state exactly as it was
+    and the process alive: nothing about the protocol is consumed per panic (no cool-down, no restart, no flag), so
+    the n-th panic is contained like the first, Close afterwards is the Close of `close_stops_all_partial`, and the
+    ticker can always tick again.  (What the MODEL does not carry are resources of the real goroutines — a worker's
+    place in the pool, a semaphore slot: that a containment leaks none of those per panic is checked on the real code
+    by the harness's 1…12-panic sweeps at every site.) -/
+theorem repeated_panics_contained :
+    ∀ (sched : List Label) (s s' : State), (∀ l ∈ sched, ∀ cl, l ≠ .core cl) → run current s sched = some s' →
+      s'.core = s.core ∧ s'.crashed = s.crashed ∧ (step current s' .tick).isSome = (step current s .tick).isSome := by
+  intro sched
+  induction sched with
+  | nil => intro s s' _ h; simp [run] at h; subst h; simp
+  | cons l ls ih =>
+    intro s s' hl h
+    simp only [run] at h
+    cases hstep : step current s l with
+    | none => simp [hstep] at h
+    | some s1 =>
+      simp only [hstep] at h
+      obtain ⟨h1, h2, h3⟩ := ih s1 s' (fun x hx => hl x (by simp [hx])) h
+      have key : s1.core = s.core ∧ s1.crashed = s.crashed := by
+        cases l with
+        | core cl => exact absurd rfl (hl (.core cl) (by simp) cl)
+        | tick | pJob | pFinish | wFinish =>
+          simp only [step] at hstep
+          split at hstep
+          · simp at hstep
+          · simp at hstep; subst hstep; simp
+        | pPanic | wPanic | pollPanic =>
+          simp only [step, current] at hstep
+          split at hstep
+          · simp at hstep
+          · simp at hstep; subst hstep; simp
+      refine ⟨h1.trans key.1, h2.trans key.2, ?_⟩
+      rw [h3]; simp only [step, key.1, key.2]; split <;> simp
+
+example : (run current settledS [.tick, .pPanic, .tick, .pJob, .wPanic, .pPanic, .pollPanic, .tick, .pPanic, .pollPanic, .pollPanic,
+    .tick, .pJob, .wPanic, .pFinish]).map (fun s => (s.crashed, s.core == settled)) = some (false, true) := by decide
+
 /-- before "fix: coordinator: a panic while polling transmit events…" the poll's panic is a panic of the service's
     own goroutine (`gPanic`) — and for ANY start-once service whose own goroutine panics the following holds (it is
     the code as it is for such a panic; no flow of the current tree raises one from a fake): the recoverer waits the
@@ -391,6 +431,8 @@ theorem spec_iff_ok (cs : Case) (o : Obs) : spec cs o = true ↔ classify cs o =
   all_goals (try (simp_all; omega))
   all_goals (try (simp_all; (repeat' split) <;> simp))
   all_goals (cases h1 : o.closeCalled <;> cases h2 : panicClauseApplies cs o <;> simp_all)
+  all_goals (rename_i hw; by_cases hz : cs.work = 0)
+  all_goals (first | exact Or.inl hz | exact Or.inr (hw (by omega)))
 
 /-- KNOWN FINDING (a) is reported for nothing else: the verdict `closeBeforeRunning` (the only one rendered with the
     prefix `close-before-running:`) is given exactly when the process survived, Close returned, something is left,
@@ -416,7 +458,7 @@ private def quietObs (cs : Case) (n k : Nat) : Obs :=
   { survived := true, closeCalled := true, closeReturned := true, errNotRunning := n, errNotStarted := k, errOther := 0,
     leakedServiceStart := n, leakedService := n + k, leakedAux := 0, leakedInflight := 0, ticking := decide (n + k > 0),
     bubbleEnded := decide (k = 0), after2ndServiceStart := 0, after2ndService := k,
-    panicsInjected := 0, resumed := true, resumedWithinNs := cs.intervalNs, othersTicked := true }
+    panicsInjected := 0, resumed := true, resumedWithinNs := cs.intervalNs, othersTicked := true, pipelineDone := true }
 
 private theorem predict_nopanic (fx : Fixes) (cs : Case) (n k : Nat) : predict fx cs n k true 0 = quietObs cs n k := by
   simp [predict, quietObs, pc_a, pc_b, pc_ok, settledS, settled, init]
@@ -462,7 +504,7 @@ private def panicObs (cs : Case) (crashed : Bool) (nRun : Nat) : Obs :=
   { survived := !crashed, closeCalled := !crashed, closeReturned := !crashed, errNotRunning := 0, errNotStarted := 0, errOther := 0,
     leakedServiceStart := 0, leakedService := 0, leakedAux := 0, leakedInflight := 0, ticking := false,
     bubbleEnded := !crashed, after2ndServiceStart := 0, after2ndService := 0, panicsInjected := 1, resumed := decide (nRun > 0),
-    resumedWithinNs := if nRun > 0 then cs.intervalNs else 0, othersTicked := true }
+    resumedWithinNs := if nRun > 0 then cs.intervalNs else 0, othersTicked := true, pipelineDone := !crashed }
 
 private theorem predict_panic (fx : Fixes) (cs : Case) (s : State)
     (hrun : run fx settledS (faultSched fx cs.panicSite) = some s) :
